@@ -1,0 +1,25 @@
+//go:build verif
+
+// Package verifhook marks the schedule points the verification harness (/verif) can observe, perturb or
+// hold. With the build tag `verif` every Point consults a process-global handler.
+package verifhook
+
+import "sync/atomic"
+
+var handler atomic.Pointer[func(string)]
+
+// Point names a place in the engine's protocols where goroutines race.
+func Point(name string) {
+	if h := handler.Load(); h != nil {
+		(*h)(name)
+	}
+}
+
+// Set installs the handler (nil removes it). The handler may block the calling goroutine.
+func Set(h func(string)) {
+	if h == nil {
+		handler.Store(nil)
+		return
+	}
+	handler.Store(&h)
+}
